@@ -55,13 +55,13 @@ FLOORS = {
                            "tokens_in_multiline_tag": 30000,
                            "cases_exhaustive": 35000, "cases_random": 7000,
                            "cases_custom_delims": 3000, "cases_linestmt": 2000}},
-    "thorough": {"evaluations": 400000, "distinct": 3000,
-                 "counters": {"lex_calls": 400000, "tokens_line_checked": 3000000,
-                              "oracle_lossless": 400000, "oracle_data": 400000,
-                              "tokens_after_stripped_newline": 100000,
-                              "tokens_in_multiline_tag": 50000,
-                              "cases_exhaustive": 100000, "cases_random": 100000,
-                              "cases_custom_delims": 50000, "cases_linestmt": 5000}},
+    "thorough": {"evaluations": 700000, "distinct": 20000,
+                 "counters": {"lex_calls": 700000, "tokens_line_checked": 15000000,
+                              "oracle_lossless": 700000, "oracle_data": 680000,
+                              "tokens_after_stripped_newline": 6000000,
+                              "tokens_in_multiline_tag": 3000000,
+                              "cases_exhaustive": 220000, "cases_random": 450000,
+                              "cases_custom_delims": 250000, "cases_linestmt": 60000}},
 }
 
 SETTINGS = [(False, False), (False, True), (True, False), (True, True)]
